@@ -178,7 +178,7 @@ def val(tok):
     return None if tok == "-" else fb(tok)
 
 
-def pid_oracle(c, meta, steps):
+def pid_oracle(c, meta, steps, stats):
     """independent recomputation of the documented law; returns list of (key, what)"""
     bad = []
     if meta["foot"] != "ok":
@@ -219,6 +219,8 @@ def pid_oracle(c, meta, steps):
             return clip(x, -imax, imax) if imax is not None else x
         want = kp * e1 + kd * (ctrl_dot - vel) + ki * integral(e1)
         scale = abs(kp * e1) + abs(kd * (ctrl_dot - vel)) + abs(ki * integral(e1)) + abs(kp) * 1e-9 + 1e-12
+        if not state_defect and abs(force - want) <= 1e-7 * scale:
+            stats["pid_force_rel"] = max(stats.get("pid_force_rel", 0.0), abs(force - want) / scale)
         if not abs(force - want) <= 1e-7 * scale:
             bad.append((key_law, "step %d: force %.17g, PID law gives %.17g (setpoint %.17g, previous setpoint %s, integral %.17g)"
                         % (k, force, want, sp1, sp_prev, integral(e1))))
@@ -229,11 +231,15 @@ def pid_oracle(c, meta, steps):
             if imax is not None and not abs(aI) <= imax * (1 + 1e-9) + 1e-300:
                 bad.append(("c51:pid-integral-outside-imax", "step %d: integral state %.17g, i_max %.17g" % (k, aI, imax)))
                 break
+            if not state_defect:
+                stats["pid_state_rel"] = max(stats.get("pid_state_rel", 0.0), abs(aI - new_i) / (abs(new_i) + abs(e0 * dt) + 1e-12))
             if not abs(aI - new_i) <= 1e-7 * (abs(new_i) + abs(e0 * dt) + 1e-12):
                 bad.append((key_law if state_defect else "c51:pid-integral-state",
                             "step %d: integral activation %.17g, running clamped integral %.17g" % (k, aI, new_i)))
                 break
         if has_p:
+            if not state_defect:
+                stats["pid_state_rel"] = max(stats.get("pid_state_rel", 0.0), abs(aP - sp0) / (abs(sp0) + slew * dt + 1e-12))
             if not abs(aP - sp0) <= 1e-7 * (abs(sp0) + slew * dt + 1e-12):
                 bad.append((key_law if state_defect else "c51:pid-setpoint-state",
                             "step %d: previous-setpoint activation %.17g, setpoint used %.17g" % (k, aP, sp0)))
@@ -385,7 +391,7 @@ def run_streams(ctx, drv, impl, expected_id):
     diff_lines = []
     skipped_unstable = 0
     own = {}
-    worst = {"pid_force_rel": 0.0, "cable_zero_at_reference": 0.0, "cable_zero_straight_rel": 0.0}
+    worst = {"pid_force_rel": 0.0, "pid_state_rel": 0.0, "cable_zero_at_reference": 0.0, "cable_zero_straight_rel": 0.0}
 
     def fail(key, what, replay):
         nonlocal nfail
@@ -404,7 +410,7 @@ def run_streams(ctx, drv, impl, expected_id):
         if meta["warn"] or not trace_finite(steps):
             skipped_unstable += 1
             continue
-        for key, what in pid_oracle(c, meta, steps):
+        for key, what in pid_oracle(c, meta, steps, worst):
             fail(key, what, {"line": l[:6000], "config": {k: v for k, v in c.items() if k != "u"}, "u": c["u"][:40],
                              "replay": "echo '<line>' | c51_plugins   (prints the per-step trace: time ctrl len vel nact nactdot | "
                                        "force actdotI actdotP actI' actP')"})
@@ -451,8 +457,9 @@ def run_streams(ctx, drv, impl, expected_id):
     ctx.extra["oracle_failures"] = nfail
     ctx.extra["filterexact_configs_with_owned_slots_by_measured_engine_rule"] = {("exact-filter" if k else "euler"): v for k, v in own.items()}
     ctx.extra["oracle_checked"] = len(l1)
-    ctx.extra["float_deviation"] = dict(worst, comparison="replay: bitwise; PID-law oracle: relative 1e-7 (observed agreement ~1e-13); "
-                                        "cable at reference: exact zero expected, threshold 1e-10*stiffness/length")
+    ctx.extra["float_deviation"] = dict(worst, comparison="replay: bitwise; PID-law oracle: threshold 1e-7 relative (pid_force_rel / pid_state_rel = "
+                                        "largest deviation measured on this run outside the recorded defect class); cable at reference: "
+                                        "exact zero expected, threshold 1e-10*stiffness/length; straight flat cable: threshold 1e-7 relative")
     if drv:
         ctx.differential("PID replay / cable omega0+stress / generated cable kernels: Lean(Float) vs the plugins of the tree, bitwise",
                          [drv], [impl], diff_lines, keyf=lambda l: l if "|" in l or l.startswith("kern ") and len(l) > 60 else None)
